@@ -60,7 +60,8 @@ LawEnds(poly)        == /\ PtEq(PointAt(poly, 0, 2), IntPt(poly[1]))
 LawVertices(poly)    == \A k \in 1..Len(poly) : PtEq(PointAt(poly, 2 * Cum(poly)[k], 2), IntPt(poly[k]))
 (* every segment that carries sn/sd yields the same point of Q: the choice in SegOf is immaterial *)
 LawSegIndependent(center, Q, sn, sd) ==
-  \A i, j \in 1..Len(center) - 1 : OnSeg(center, i, sn, sd) /\ OnSeg(center, j, sn, sd) =>
+  \A i \in 1..Len(center) - 1 : OnSeg(center, i, sn, sd) =>
+   \A j \in 1..Len(center) - 1 : OnSeg(center, j, sn, sd) =>
      PtEq(Lerp(Q, i, ParamNum(center, i, sn, sd), ParamDen(center, i, sd)),
           Lerp(Q, j, ParamNum(center, j, sn, sd), ParamDen(center, j, sd)))
 (* PointAt lies on its segment at distance s - Cum[i] from vertex i and Cum[i+1] - s from vertex i+1 *)
